@@ -179,6 +179,17 @@ theorem distinct_passwords_distinct_keys (P : KeyPrims) (hP : P.utf8 = Kp.Codec.
 theorem password_bytes_distinct (pw pw' : Str) (hne : pw ≠ pw') : Kp.Codec.utf8 pw ≠ Kp.Codec.utf8 pw' :=
   fun e => hne (Kp.Codec.utf8_injective pw pw' e)
 
+/-- a version-2 payload with an odd number of non-white-space characters is not hex: the library falls
+    back to the UTF-8 bytes of the element text (as `parse_xml_keyfile` does) -/
+theorem keyfile_v2_odd_falls_back (P : KeyPrims) (hP : P.hex = Kp.Codec.hexDecode) (buf : Bytes) (data : Str)
+    (hodd : (stripWs data).length % 2 = 1) :
+    keyfileKey P buf (.wellFormed (some v2) (some data)) = P.utf8 data := by
+  have hn : Kp.Codec.hexDecode (stripWs data) = none := by
+    cases h : Kp.Codec.hexDecode (stripWs data) with
+    | none => rfl
+    | some b => have := Kp.Codec.hexDecode_length _ b h; omega
+  simp [keyfileKey, xmlKey, hP, hn]
+
 /-! Non-vacuity -/
 example : hexWrite (fun i => i % 2 == 0) 0 [0xAB, 0x0F] = ['A', 'b', '0', 'f'] := by decide
 
